@@ -349,12 +349,16 @@ def call_columns(ts, tname, cidx, fault, method):
     except Exception:
         # a refused bulk assignment must leave a *usable* table behind (C09 does not ask for an unchanged one: set_columns clears
         # first): read every row, copy, compare with the copy, append a row, sort the collection
-        rows = [r for r in t]
-        repr(rows)[:10]
-        if not t.copy().equals(t):
+        try:
+            rows = [r for r in t]
+            repr(rows)[:10]
+            same = t.copy().equals(t)
+            if len(before):
+                t.append(before[0])
+        except Exception as e2:      # reading / copying / appending to the table after the refusal must simply work
+            raise AssertionError("LATENT: after %s.%s refused the columns the table is unusable: %s: %s" % (tname, method, type(e2).__name__, str(e2)[:100]))
+        if not same:
             raise AssertionError("LATENT: %s.%s refused the columns and left a table that differs from its own copy" % (tname, method))
-        if len(before):
-            t.append(before[0])
         raise
     # accepted: the table must be fully readable and self-consistent
     rows = [r for r in t]
@@ -520,8 +524,7 @@ def run():
             autos = [p for p in progs if ":" in p["name"]]
             colps = [p for p in progs if p["name"] == "columns"]
             chk.extra.update(auto_methods=nmeth, auto_entries=len(auto), auto_programs_enumerated=len(autos), column_programs_enumerated=len(colps))
-            if QUICK:
-                colps = rng.sample(colps, min(len(colps), 400))
+            # (all column programs are run in both tiers: they are cheap)
             # Tree methods are also run on a long-lived Tree object that accumulates the history of the whole batch
             autos = autos + [dict(p, long=1) for p in autos if p["name"].startswith("Tree.")]
             rng.shuffle(autos)
